@@ -243,6 +243,26 @@ Theorem C19_launch_done_final :
 Proof. exact launch_done_final. Qed.
 Print Assumptions C19_launch_done_final.
 
+(* 10b'. an error of process ("invalid trie node ...", "state node ... failed with
+   all peers") is an interruption too: the loop's next guard ends the task with
+   exactly that error, and no later event can turn it into done-without-error *)
+Theorem C19_launch_process_error_is_error :
+  forall H dec blen ideal cb root db m, m_err m <> CNone ->
+  lstep H dec blen ideal root cb db (LRunning m) LGuard =
+    LDone (Some (LFailed (m_err m))) (mstep H dec blen ideal m ECancel) /\
+  forall evs m', fold_left (lstep H dec blen ideal root cb db) evs (LRunning m) <> LDone None m'.
+Proof. exact launch_process_error. Qed.
+Print Assumptions C19_launch_process_error_is_error.
+
+(* the error is the one process returned *)
+Theorem C19_launch_process_error_recorded :
+  forall H dec blen ideal m f rest np c' succ e,
+  running m = true -> m_finished m = f :: rest ->
+  cprocess H dec blen (m_c m) (f_req f) (f_resp f) np = (c', (succ, e)) ->
+  m_err (mstep H dec blen ideal m (ENext np)) = e.
+Proof. exact process_error_recorded. Qed.
+Print Assumptions C19_launch_process_error_recorded.
+
 (* 10c. the launch machine the harness checks observed outcomes against (astep,
    without the contents of the loop) is the projection of the full one *)
 Theorem C19_launch_refines :
@@ -316,3 +336,12 @@ Example C19_nonvacuous_launch :
   lrun wH gdec g_blen g_ideal 11 true [] [LCancelSeen; LGuard] = LQueued.
 Proof. exact g_launch_run. Qed.
 Print Assumptions C19_nonvacuous_launch.
+
+(* a launch that ends with the error of process: the only peer has nothing *)
+Example C19_nonvacuous_launch_error :
+  exists m, lrun wH gdec g_blen g_ideal 11 true []
+              [LHandover; LLoop (EAssign 0 1 [11] [11]); LLoop (EPack 0 []); LLoop (ENext 1); LGuard; LGuard]
+            = LDone (Some (LFailed CAllPeers)) m /\
+            pending (c_sched (m_c m)) = 1 /\ s_db (c_sched (m_c m)) = [].
+Proof. exact g_launch_error. Qed.
+Print Assumptions C19_nonvacuous_launch_error.
